@@ -524,6 +524,7 @@ theorem parseArgparse_keys {env : Env} {t : Top} {ir : IR} (h : parseArgparse en
 
 /-- the entry has no type, or a non-empty one -/
 def TypNE (p : Param) : Prop := p.typ ≠ some ""
+instance (p : Param) : Decidable (TypNE p) := inferInstanceAs (Decidable (p.typ ≠ some ""))
 def IRTypNE (ir : IR) : Prop := (∀ kv ∈ ir.params, TypNE kv.2) ∧ ∀ r, ir.returns = some r → TypNE r
 /-- the docstring layer never answers an empty type -/
 def DocTypNE (env : Env) : Prop := ∀ cfg s, IRTypNE (env.docParse cfg s)
@@ -1201,5 +1202,91 @@ theorem parseArgparse_typ {env : Env} (hR : ∀ s, apRetTypOK (env.docParse .arg
     split at h
     · exact argparseFold_typ (hR _) _ _ _ h (fun s hs => ht s (splitDoc_rest_subset body s hs)) ⟨by simp, by simp⟩
     · cases h
+
+/-! ## small list facts -/
+
+theorem count_eq_one_of_nodup {l : List String} {a : String} (h : l.Nodup) (ha : a ∈ l) : l.count a = 1 := by
+  induction l with
+  | nil => cases ha
+  | cons x xs ih =>
+    obtain ⟨hx, hxs⟩ := List.nodup_cons.mp h
+    rw [List.count_cons]
+    rcases List.mem_cons.mp ha with e | e
+    · subst e
+      have : xs.count a = 0 := List.count_eq_zero.mpr hx
+      simp [this]
+    · have hne : x ≠ a := fun e' => hx (e' ▸ e)
+      simp [ih hxs e, hne]
+
+/-- evaluate a parser result under a Boolean test (`Except` has no `DecidableEq`; the witnesses are closed by `decide`) -/
+def okAnd (x : Except String IR) (p : IR → Bool) : Bool :=
+  match x with
+  | .ok ir => p ir
+  | .error _ => false
+
+theorem okAnd_spec {x : Except String IR} {p : IR → Bool} (h : okAnd x p = true) : ∃ ir, x = .ok ir ∧ p ir = true := by
+  unfold okAnd at h
+  split at h
+  · exact ⟨_, rfl, h⟩
+  · cases h
+
+/-! ## hypotheses about the docstring layer and about CPython's parser -/
+
+/-- the docstring layer's answers have pairwise distinct names (C14 for the docstring parsers: `C14.parseRest_wf`,
+    `C14GN.parseDocstring_wf`) -/
+def DocDistinct (env : Env) : Prop := ∀ cfg s, (dkeys (env.docParse cfg s).params).Nodup
+/-- the docstring layer never answers an empty name (false of the real ReST/Google/NumPy parsers on some texts:
+    `C14.empty_name_witness`, `C14GN.empty_name_*`) -/
+def DocNamesNE (env : Env) : Prop := ∀ cfg s, ∀ k ∈ dkeys (env.docParse cfg s).params, k ≠ ""
+/-- the signature's names, after the `self`/`cls` drop, are pairwise distinct.  **CPython's own guarantee**:
+    `def f(a, a)` is a `SyntaxError` ("duplicate argument 'a' in function definition"); the model type `Top` allows it. -/
+def SigDistinct (t : Top) : Prop := (sigNames t).Nodup
+instance (t : Top) : Decidable (SigDistinct t) := inferInstanceAs (Decidable (sigNames t).Nodup)
+
+/-- an ideal docstring layer for witnesses and non-vacuity: whatever the docstring, it answers `d` -/
+def envK (d : IR) : Env :=
+  { docEmit := fun _ _ => "", docParse := fun _ _ => d, extractDefault := fun _ s => (s, none), adhocTyp := fun _ _ _ => none,
+    pyExpr := fun _ => none }
+
+theorem docDistinct_envK {d : IR} (h : (dkeys d.params).Nodup) : DocDistinct (envK d) := fun _ _ => h
+theorem docNamesNE_envK {d : IR} (h : ∀ k ∈ dkeys d.params, k ≠ "") : DocNamesNE (envK d) := fun _ _ => h
+theorem docTypNE_envK {d : IR} (h : IRTypNE d) : DocTypNE (envK d) := fun _ _ => h
+theorem adhocNE_envK (d : IR) : AdhocNE (envK d) := fun _ _ _ => by simp [envK]
+
+theorem clsDocParams_nodup {env : Env} (hdoc : DocDistinct env) (t : Top) : (dkeys (clsDocParams env t)).Nodup := by
+  cases t with
+  | fn _ _ _ _ => exact List.nodup_nil
+  | cls n b body =>
+    simp only [clsDocParams]
+    cases (splitDoc body).1 with
+    | none => exact List.nodup_nil
+    | some s => exact hdoc _ _
+
+theorem fnDocParams_nodup {env : Env} (hdoc : DocDistinct env) (it : Bool) (t : Top) : (dkeys (fnDocIR env it t).params).Nodup := by
+  cases t with
+  | cls _ _ _ => exact List.nodup_nil
+  | fn n a body r =>
+    simp only [fnDocIR]
+    cases (splitDoc body).1 with
+    | none => exact List.nodup_nil
+    | some s => exact hdoc _ _
+
+theorem mem_clsDocParams {env : Env} (hne : DocNamesNE env) (t : Top) : ∀ k ∈ dkeys (clsDocParams env t), k ≠ "" := by
+  cases t with
+  | fn _ _ _ _ => intro k hk; cases hk
+  | cls n b body =>
+    simp only [clsDocParams]
+    cases (splitDoc body).1 with
+    | none => intro k hk; cases hk
+    | some s => exact hne _ _
+
+theorem mem_fnDocParams {env : Env} (hne : DocNamesNE env) (it : Bool) (t : Top) : ∀ k ∈ dkeys (fnDocIR env it t).params, k ≠ "" := by
+  cases t with
+  | cls _ _ _ => intro k hk; cases hk
+  | fn n a body r =>
+    simp only [fnDocIR]
+    cases (splitDoc body).1 with
+    | none => intro k hk; cases hk
+    | some s => exact hne _ _
 
 end Iface
